@@ -130,6 +130,10 @@ def run_shard(shard, ctx, tier):
 def compare(pos, i, got, ref, mode, w, bs, ctx_, K, desc, sub, ctx, padding_is_blank=True):
     t, lg, co = got
     rt, rlg, rco = ref
+    if t is None or (mode != 'nologits' and (lg is None or co is None)):
+        ctx.violation('own-transcription-at-own-position', f'{K}/no-result-at-position',
+                      f'{desc}: position {pos} (crop {CROPS[i]}) got transcription {t!r}, logits {"None" if lg is None else "present"}, window {co}', sub)
+        return False
     if t != rt:
         ctx.violation('own-transcription-at-own-position', f'{K}/transcription',
                       f'{desc}: position {pos} (crop {CROPS[i]}) got {t!r}, alone it is {rt!r}', sub)
